@@ -172,7 +172,9 @@ def run(ctx):
                         continue
                     for q in ("", "?x=1"):
                         ebases.append(f"{sch}:{au}{pth}{q}")
-        erefs = ["e", "e/f", "e/", "e?y#s", "http:e", "", "?y", "#s", "/e", "/e/../f", "./e", "../e", "..", ".", "e/./f", "e.f", "//g/a/../b", "//g/.", "//g", "e;p", "%2E%2E/e", "a/b/c/d"]
+        erefs = ["e", "e/f", "e/", "e?y#s", "http:e", "", "?y", "#s", "/e", "/e/../f", "./e", "../e", "..", ".", "e/./f", "e.f", "//g/a/../b", "//g/.", "//g", "e;p", "%2E%2E/e", "a/b/c/d",
+                 # a reference with an authority under ANOTHER scheme (returned unchanged, dots included) and under the base's own scheme (resolved)
+                 "https://x/a/../b", "ftp://u:p@x:2121/./pub/../f.txt", "ws://x/..", "http://x/a/../b?k#f", "file://x/./y", "git://x/a/../b", "mailto://x/a/../b"]
         ctx.notes["encoded_bases"] = len(ebases)
         for b in ebases:
             for r_ in erefs:
